@@ -146,6 +146,14 @@ CHECKS["C16"] = dict(
     ref="DESIGN.md §5 C16",
 )
 
+CHECKS["C13"] = dict(
+    level="exploration",
+    text="Runtime monitoring of generate-from-samples -> import -> parse (strictest settings, ConverterWarning is an error) -> serialize: a hidden regular model (repeated and interleaved children, optional parts, attributes, 1-3 namespaces, mixed content, nil, one leaf of every inferable type in canonical spelling) emits 1-4 XML samples or 1-3 JSON samples; only the samples reach the generator; every sample must parse into the generated root class and serialize to the same elements/attributes/values (XML: modulo prefixes and insignificant whitespace, typed leaves in the value space of the hidden type; JSON: modulo key order and explicit nulls). Held on the executions produced.",
+    note="Trusted: vf/samplegen.py (regularity of the hidden model is by construction), lxml/json for reading outputs, codegen stand-ins. Two open known findings (an element that is sometimes bare / a leaf with an optional attribute or nil becomes a union of primitive and class) have dedicated probes with counterfactuals; their triggers are kept out of the random population.",
+    technique="runtime monitoring: generated sample sets through the real pipeline, reference infoset from the hidden model, strict parser settings as tripwires",
+    ref="DESIGN.md §5 C13",
+)
+
 FIX_COMMITS = []  # guarded hook commits in /repo (none: all hooks are installed from the harness side)
 
 
